@@ -12,7 +12,7 @@ RULE = ("stateless DFS over every tie-break sequence (random.choice in the greed
         "non-trivial when the graph has a clique larger than m0 or the run reached >= 1 tie-break point")
 BOUNDS = {
     "quick": "all labelled graphs without isolated vertices on 2..6 vertices x m0 in 2..n+1 x all tie-breaks; "
-             "suite fixture (14 vertices) for m0 2..5; all 853 connected atlas graphs on 7 vertices in 2 labelings x m0 3..5 (K7, K7-e at m0=3 only in thorough); K8 minus every graph with <= 4 edges x m0 5..8",
+             "suite fixture (14 vertices) for m0 2..5; all 853 connected atlas graphs on 7 vertices in 2 labelings x m0 2..5 (K7, K7-e at m0=3 only in thorough); sparse 8-vertex graphs (7-vertex graph with <= 9 edges + a pendant vertex) x m0 2..4; K8 minus every graph with <= 4 edges x m0 5..8",
     "thorough": "quick + all connected atlas graphs on 7 vertices in 3 labelings x m0 2..8 x all tie-breaks "
                 "+ all labelled graphs on 6 vertices under a 1-based shuffled relabeling",
 }
@@ -29,7 +29,7 @@ def instances(tier, seed):
         # (first, densest first: their tie-break trees are the largest)
         for n, edges in sorted(enumr.atlas_connected(7, 7), key=lambda g: -len(g[1])):
             for lab in enumr.relabelings(7, seed, kinds=("identity", "reversed")):
-                for m0 in (3, 4, 5):
+                for m0 in (2, 3, 4, 5):
                     if m0 == 3 and len(edges) >= 20:
                         continue  # K7 and K7 minus an edge at m0 = 3: 2*10^4 tie-break sequences (thorough tier)
                     yield {"kind": "edges", "edges": edges, "m0s": [m0], "labels": lab}
@@ -38,6 +38,11 @@ def instances(tier, seed):
         for edges in enumr.near_complete_graphs(n, 4):
             for lab in enumr.relabelings(n, seed, kinds=("identity", "reversed")):
                 yield {"kind": "edges", "edges": edges, "m0s": list(range(n - 3, n + 1)), "labels": lab}
+    # sparse graphs on 8 vertices: every connected 7-vertex graph with <= 9 edges plus a pendant vertex at each vertex
+    for n, edges in enumr.atlas_connected(7, 7, max_edges=9 if tier == "quick" else 11):
+        for at in range(7):
+            yield {"kind": "edges", "edges": edges + [(at, 7)], "m0s": [2, 3, 4], "labels":
+                   enumr.relabelings(8, seed, kinds=("identity" if at % 2 else "reversed",))[0]}
     for n in range(2, 7):
         masks = list(enumr.labelled_graph_masks(n, no_isolated=True))
         step = 96
